@@ -167,7 +167,8 @@ theorem beNat_cons (b : UInt8) (bs : Bytes) (acc : Nat) :
 /-- What `ReadLength` computes from the bytes of `encLen n`: first byte test, count, big-endian value. -/
 theorem encLen_cases (n : Nat) (h : n < 2 ^ 32) :
     (∃ b, encLen n = [b] ∧ b &&& 0x80 = 0 ∧ b.toNat = n) ∨
-    (∃ b bs, encLen n = b :: bs ∧ ¬ (b &&& 0x80 = 0) ∧ (b &&& lengthCountMask).toNat = bs.length ∧ beNat bs = n) := by
+    (∃ b bs, encLen n = b :: bs ∧ ¬ (b &&& 0x80 = 0) ∧ lenFormOk b = true ∧
+      (b &&& lengthCountMask).toNat = bs.length ∧ beNat bs = n) := by
   unfold encLen
   by_cases h1 : n < 128
   · left
@@ -177,20 +178,20 @@ theorem encLen_cases (n : Nat) (h : n < 2 ^ 32) :
     simp only [h1, ↓reduceIte]
     by_cases h2 : n < 256
     · simp only [h2, ↓reduceIte]
-      refine ⟨0x81, [b8 n], rfl, by decide, by simp only [List.length]; decide, ?_⟩
+      refine ⟨0x81, [b8 n], rfl, by decide, by decide, by simp only [List.length]; decide, ?_⟩
       simp only [beNat, List.foldl, b8_toNat]; omega
     · simp only [h2, ↓reduceIte]
       by_cases h3 : n < 65536
       · simp only [h3, ↓reduceIte]
-        refine ⟨0x82, [b8 (n / 256), b8 (n % 256)], rfl, by decide, by simp only [List.length]; decide, ?_⟩
+        refine ⟨0x82, [b8 (n / 256), b8 (n % 256)], rfl, by decide, by decide, by simp only [List.length]; decide, ?_⟩
         simp only [beNat, List.foldl, b8_toNat]; omega
       · simp only [h3, ↓reduceIte]
         by_cases h4 : n < 16777216
         · simp only [h4, ↓reduceIte]
-          refine ⟨0x83, [b8 (n / 65536), b8 (n / 256 % 256), b8 (n % 256)], rfl, by decide, by simp only [List.length]; decide, ?_⟩
+          refine ⟨0x83, [b8 (n / 65536), b8 (n / 256 % 256), b8 (n % 256)], rfl, by decide, by decide, by simp only [List.length]; decide, ?_⟩
           simp only [beNat, List.foldl, b8_toNat]; omega
         · simp only [h4, ↓reduceIte]
-          refine ⟨0x84, [b8 (n / 16777216), b8 (n / 65536 % 256), b8 (n / 256 % 256), b8 (n % 256)], rfl, by decide, by simp only [List.length]; decide, ?_⟩
+          refine ⟨0x84, [b8 (n / 16777216), b8 (n / 65536 % 256), b8 (n / 256 % 256), b8 (n % 256)], rfl, by decide, by decide, by simp only [List.length]; decide, ?_⟩
           simp only [beNat, List.foldl, b8_toNat]
           have : n < 4294967296 := h
           omega
@@ -227,7 +228,7 @@ theorem consume_rest (c : Core) (n : Nat) : (c.consume n).rest = c.rest.drop n :
 theorem det_readLen (c : Core) (n : Nat) (t : Bytes) (hn : n < 2 ^ 32) (h : c.rest = encLen n ++ t) :
     Det readLen c (n, (encLen n).length) (c.consume (encLen n).length) := by
   unfold Crv.readLen
-  rcases encLen_cases n hn with ⟨b, he, hb, hv⟩ | ⟨b, bs, he, hb, hk, hv⟩
+  rcases encLen_cases n hn with ⟨b, he, hb, hv⟩ | ⟨b, bs, he, hb, hf, hk, hv⟩
   · rw [he] at h ⊢
     have h1 := det_readU8 c b t (by simpa using h)
     refine det_bind h1 ?_
@@ -236,7 +237,7 @@ theorem det_readLen (c : Core) (n : Nat) (t : Bytes) (hn : n < 2 ^ 32) (h : c.re
   · rw [he] at h ⊢
     have h1 := det_readU8 c b (bs ++ t) (by simpa using h)
     refine det_bind h1 ?_
-    simp only [hb, ↓reduceIte]
+    simp only [hb, hf, Bool.not_true, Bool.false_eq_true, ↓reduceIte]
     have hrest : (c.consume 1).rest = bs ++ t := by
       rw [consume_rest, h]; rfl
     have h2 := det_readN (c.consume 1) bs.length (by rw [hrest]; simp)
@@ -263,7 +264,7 @@ theorem det_readTL (c : Core) (tag : UInt8) (n : Nat) (t : Bytes) (hn : n < 2 ^ 
 theorem det_peekLen (c : Core) (off n : Nat) (t : Bytes) (hn : n < 2 ^ 32) (h : c.rest.drop off = encLen n ++ t) :
     Det (peekLen off) c (n, (encLen n).length) c := by
   unfold Crv.peekLen
-  rcases encLen_cases n hn with ⟨b, he, hb, hv⟩ | ⟨b, bs, he, hb, hk, hv⟩
+  rcases encLen_cases n hn with ⟨b, he, hb, hv⟩ | ⟨b, bs, he, hb, hf, hk, hv⟩
   · rw [he] at h ⊢
     have h1 := det_peekU8 c off b t (by simpa using h)
     refine det_bind h1 ?_
@@ -272,7 +273,7 @@ theorem det_peekLen (c : Core) (off n : Nat) (t : Bytes) (hn : n < 2 ^ 32) (h : 
   · rw [he] at h ⊢
     have h1 := det_peekU8 c off b (bs ++ t) (by simpa using h)
     refine det_bind h1 ?_
-    simp only [hb, ↓reduceIte]
+    simp only [hb, hf, Bool.not_true, Bool.false_eq_true, ↓reduceIte]
     have hd : c.rest.drop (off + 1) = bs ++ t := by
       have : c.rest.drop (off + 1) = (c.rest.drop off).drop 1 := by rw [List.drop_drop]
       rw [this, h]; rfl
@@ -522,6 +523,26 @@ theorem det_parseBitString (c : Core) (s t : Bytes) (hs : s.length < 81920)
   have : tlv 3 ((0 : UInt8) :: s) = (3 :: encLen ((0 : UInt8) :: s).length) ++ (0 :: s) := rfl
   rw [this]
   exact det_pure _ _
+
+/-- The inner `signature` AlgorithmIdentifier: decodable and byte-identical to the outer frame. -/
+theorem det_readInnerAlg (O : Oracle) (c : Core) (outerFrame x t : Bytes) (hx : x.length ≤ 81920)
+    (h : c.rest = seqOf x ++ t) (hok : (O.algOid (seqOf x)).isSome = true) (hsame : seqOf x = outerFrame) :
+    Det (readInnerAlg O outerFrame) c () (c.after (seqOf x) t) := by
+  unfold Crv.readInnerAlg
+  simp only [algIdsCompared, ↓reduceIte]
+  refine det_bind (det_seqStruct c .alg _ x t hx h hok) ?_
+  simp only [hsame, ↓reduceIte]
+  exact det_pure _ _
+
+/-- The envelope check passes on a whole-octet signature when the position is the declared outer end. -/
+theorem det_checkEnvelope (c : Core) (sig : BitStr) (outerEnd : Nat) (h8 : sig.bitLen % 8 = 0) (hp : c.pos = outerEnd) :
+    Det (checkEnvelope sig outerEnd) c () c := by
+  intro r hr
+  have hp' : r.pos = outerEnd := by rw [← hp, ← hr]; rfl
+  refine ⟨r, ?_, hr⟩
+  unfold Crv.checkEnvelope
+  simp only [sigUnusedBitsRejected, outerLengthChecked, h8, bne_self_eq_false, Bool.and_false, Bool.false_eq_true,
+    ↓reduceIte, Bind.bind, RdM.bind, Crv.getPos, hp', Pure.pure, RdM.pure]
 
 theorem seqOf_length_pos (x : Bytes) : 1 ≤ (seqOf x).length := by
   rw [seqOf, tlv_length]; omega
